@@ -422,6 +422,12 @@ def list_axioms(ty: TList) -> list:
             ),
             patterns=[z3.Select(el(L), x)],
         ),
+        # ... namely the position of its FIRST occurrence (matters for lists with repeated elements, e.g. STORE flag lists)
+        forall(
+            [L, j],
+            z3.Implies(z3.And(0 <= j, j < ty.len(L)), pos(L, z3.Select(ty.arr(L), j)) <= j),
+            patterns=[pos(L, z3.Select(ty.arr(L), j))],
+        ),
     ]
     return ax
 
